@@ -120,9 +120,15 @@ func gen(t *rapid.T) Case {
 		default:
 			op.Kind = "seek"
 		}
+		partial := i == 0 && !big && chunk > 1 && rapid.Bool().Draw(t, "startpartial")
+		if partial {
+			op = Op{Kind: "read"} // begin with a read that ends inside the first leaf
+		}
 		switch op.Kind {
 		case "read", "readfull":
-			if big {
+			if partial {
+				op.N = rapid.IntRange(1, chunk-1).Draw(t, "npartial")
+			} else if big {
 				op.N = rapid.SampledFrom([]int{0, 1, chunk - 1, chunk, chunk + 1, 2 * chunk, 1000, 70000}).Draw(t, "n")
 			} else {
 				switch rapid.IntRange(0, 7).Draw(t, "nclass") {
